@@ -96,7 +96,7 @@ def pipe(ctx):
 
 def where_filter(ctx):
     repo = ctx.repo
-    r = ctx.rule('C09-FILTER', 'WhereEqual yields exactly the instances whose named values all compare equal', floor=4, oracle='property statement')
+    r = ctx.rule('C09-FILTER', 'WhereEqual yields exactly the instances whose named values all compare equal', floor=7, oracle='property statement')
     fn = repo.func(M + 'WhereEqual.__call__')
     Q = M + 'WhereEqual.__call__'
     outer = [n for n in fn.body if isinstance(n, ast.For)]
@@ -105,10 +105,7 @@ def where_filter(ctx):
     o = outer[0]
     r.check(src(o.iter) in ('iter(s)', 's'), 'all instances of the source are visited in order', o, construct=Q, key='outer', msg='WhereEqual iterates %s' % src(o.iter))
     iv = o.target.id
-    inner = [n for n in o.body if isinstance(n, ast.For)]
-    if len(inner) != 1:
-        raise AnalysisError('%s: item loop not found' % loc(fn))
-    inn = inner[0]
+    inn = o
 
     def mismatch(e, s, tr):
         return not s['env']['name'][0]
@@ -124,10 +121,10 @@ def where_filter(ctx):
         env['name'] = element
         env['value'] = element
     it.bind = bind
-    for matches in itertools.product([True, False], repeat=2):
+    for matches in [m_ for n_ in (0, 1, 2) for m_ in itertools.product([True, False], repeat=n_)]:
         tr = []
         try:
-            it.block([inn], {'matches': list(matches)}, tr)
+            it.block(o.body, {'matches': list(matches)}, tr)
         except (absint._Continue, absint._Break):
             pass
         want = ['yield'] if all(matches) else []
@@ -238,8 +235,14 @@ def nav(ctx):
             tr.append(('union', src(e['_V'])))
             return True
         return False
+    def add_one(e, s, tr):
+        if isinstance(e['_S'], ast.Name) and e['_S'].id == s.get('acc'):
+            tr.append(('add', src(e['_V'])))       # a single element (possibly None) instead of the union of the step's results
+            return True
+        return False
     it = absint.Interp(fn, [('_K in self.links', direct), ('_K not in self.links', lambda e, s, tr: (None if direct(e, s, tr) is None else not direct(e, s, tr)))],
-                       [('_S = xtuml.OrderedSet()', new_set), ('_S = OrderedSet()', new_set), ('_S |= _V', union)],
+                       [('_S = xtuml.OrderedSet()', new_set), ('_S = OrderedSet()', new_set), ('_S |= _V', union), ('_S.update(_V)', union),
+                        ('_S.add(_V)', add_one)],
                        iters=[('_L.navigate(_I)', assoc_elems)])
     it.pure_calls = {'_find_assoc_links', 'navigate'}
     out, tr = it.run({'direct': True})
